@@ -81,6 +81,57 @@ def run(tier):
         chk.violate({"op": "find_buf", "kind": "crash", "shape": U.crash_shape(c)[0]},
                     "find_buf(a=%s, needle=%s) %s" % (bytes(v["a"]), bytes(v["b"]), U.crash_shape(c)[1]),
                     {"mode": "findbuf", "op": "find_buf", "a": v["a"], "b": v["b"]})
+    # needles of every length around table / buffer sizes an implementation might use, planted
+    # in a haystack one byte longer at each end: once occurring, once with the last byte changed
+    # (round 9: a skip table was wrong for needles of exactly 256 bytes; an unsuccessful search
+    # then never returned)
+    if tier == "quick":
+        nlens = list(range(1, 71)) + list(range(120, 137)) + list(range(250, 263)) + list(range(506, 519)) + list(range(1020, 1031))
+    else:
+        nlens = list(range(1, 1101))
+    lf = []
+    for n in nlens:
+        nd = [rng.choice([97, 98]) for _ in range(n)]
+        lf.append({"a": [98] + nd + [97], "b": nd})
+        miss = nd[:-1] + [47]
+        lf.append({"a": [98] + miss + [97] + nd[:-1], "b": nd})
+        lf.append({"a": nd[:-1], "b": nd})
+    lres, lcr = U.run_driver(chk, bindir, "pair", lf, "c11len")
+    for i, v in enumerate(lf):
+        r = lres.get(i)
+        if not r:
+            continue
+        for op in ("find", "find_buf", "ends_with", "match_up_to", "match_up_to_str"):
+            if op in r:
+                recs.append(U.rec(op, v["a"], v["b"], r[op], "content"))
+    for c in lcr:
+        v = lf[c["crash"]]
+        chk.violate({"op": c["op"], "kind": "crash", "shape": U.crash_shape(c)[0]},
+                    "%s %s (needle of %d bytes)" % (c["op"], U.crash_shape(c)[1], len(v["b"])), {"mode": "pair", "op": c["op"], "a": v["a"], "b": v["b"]})
+    # match_up_to_str with texts that contain NUL (a &str may): self over {a,b}, text over
+    # {a,b,NUL}, both up to length 3, plus longer ones with a NUL exactly where self ends
+    ms = []
+    for la in range(0, 4):
+        for a in itertools.product([97, 98], repeat=la):
+            for lb in range(0, 4):
+                for b in itertools.product([97, 98, 0], repeat=lb):
+                    if 0 in b:
+                        ms.append({"a": list(a), "b": list(b)})
+    for _ in range(n_rand // 3):
+        a = [rng.choice([97, 98]) for _ in range(rng.randint(0, L))]
+        k = rng.randint(0, len(a))
+        b = a[:k] + ([0] if rng.random() < 0.8 else []) + [rng.choice([97, 98, 0]) for _ in range(rng.randint(0, 6))]
+        ms.append({"a": a, "b": b})
+    mres, mcr = U.run_driver(chk, bindir, "mstr", ms, "c11ms")
+    for i, v in enumerate(ms):
+        r = mres.get(i)
+        if r and "match_up_to_str" in r:
+            recs.append(U.rec("match_up_to_str", v["a"], v["b"], r["match_up_to_str"], "content"))
+    for c in mcr:
+        v = ms[c["crash"]]
+        chk.violate({"op": "match_up_to_str", "kind": "crash", "shape": U.crash_shape(c)[0]},
+                    "match_up_to_str(a=%s, text=%s) %s" % (bytes(v["a"]), bytes(v["b"]), U.crash_shape(c)[1]),
+                    {"mode": "mstr", "op": "match_up_to_str", "a": v["a"], "b": v["b"]})
     # multi-byte UTF-8 operands (tokens a / é 日 😀 and the lone Latin-1 / lead bytes on the left side)
     toks_b = [[97], [47], [195, 169], [230, 151, 165], [240, 159, 152, 128], [46]]
     toks_a = toks_b + [[233], [195], [230, 151]]
